@@ -53,7 +53,8 @@ def runOp (s : Proto) (op : String) : Option (Proto × String) :=
       | .error e => showPErr e)
   | _ => none
 
-def runProto (addr rxq txq ops : String) : Option String := do
+/-- run a history; per operation `<result>@<rx items left>#<log length>`, and the whole log -/
+def runProtoSteps (addr rxq txq ops : String) : Option (List String × List String) := do
   let a ← parseHexNat addr
   let rx ← parseRxq rxq
   let tx ← parseTxq txq
@@ -62,10 +63,9 @@ def runProto (addr rxq txq ops : String) : Option String := do
     match ops with
     | [] => some (s, acc.reverse)
     | o :: t => match runOp s o with
-      | some (s', r) => go s' t (r :: acc)
+      | some (s', r) => go s' t ((r ++ "@" ++ toString s'.rxQueue.length ++ "#" ++ toString s'.log.length) :: acc)
       | none => none
   let (s, rs) ← go (Proto.init (UInt16.ofNat a) rx tx) opl []
-  pure ((if rs.isEmpty then "-" else String.intercalate ";" rs) ++ " " ++
-    (if s.log.isEmpty then "-" else String.intercalate "," (s.log.map showLogEntry)))
+  pure (rs, s.log.map showLogEntry)
 
 end Ross.Codec
